@@ -321,13 +321,22 @@ class World:
             cls = repaired(fr, self.repairs)
         opts = {'nodes': [self.up[n].uri for n in self.order]} if len(self.order) > 1 or self.layout.get('aslist') \
             else {'node': self.up[self.order[0]].uri}
+        created = []
+        orig_init = fr.SecopClient.__init__
+
+        def init(client, uri, log, dispatcher):
+            created.append(client)
+            orig_init(client, uri, log, dispatcher)
+        fr.SecopClient.__init__ = init
         try:
             self.router = cls('router', log.getChild('dispatcher'), opts, srv)
         except Exception as e:  # noqa
             self.init_error = repr(e)
             return
+        finally:
+            fr.SecopClient.__init__ = orig_init
         srv.dispatcher = self.router
-        self.clients = dict(zip(self.order, self.router.nodes))
+        self.clients = {self.ups[c.uri].name: c for c in created}
         for c in self.conns.values():
             self.router.add_connection(c)
 
@@ -347,8 +356,18 @@ class World:
         s.block(quiet, None, 'settle')
 
     def wait(self, secs):
-        self.sched.sleep(secs)
-        self.settle()
+        """let virtual time pass; do not stop right before a timer of the system fires (reading the clock costs a
+        little virtual time, so such a timer would fire during one of the next steps instead of during this wait)"""
+        s = self.sched
+        me = s.me()
+        s.sleep(secs)
+        for _ in range(20):
+            self.settle()
+            near = [t.deadline for t in s.threads.values()
+                    if t is not me and not t.finished and t.deadline is not None and t.deadline - s.now < 0.25]
+            if not near:
+                break
+            s.sleep(max(near) - s.now + 1e-3)
 
     # --- alpha
     def entry(self, node, m, p, item):
@@ -437,7 +456,7 @@ class World:
             u.open = True
             u.version = a.get('ver', u.version)
         elif act == 'wait':
-            s.sleep(a['d'])
+            self.wait(a['d'])
         elif act in ('act', 'deact', 'desc'):
             conn = self.conns[a['c']]
             action = {'act': 'activate', 'deact': 'deactivate', 'desc': 'describe'}[act]
@@ -465,6 +484,40 @@ class World:
         excs = {n: repr(t.exc)[:100] for n, t in s.threads.items() if t.exc is not None}
         obs['excs'] = sorted(excs.values())
         return obs
+
+    def step_joint(self, subs):
+        """several actions at the same time: upstream updates are queued for the rx threads, requests of downstream
+        connections run in threads of their own (as the interface does); returns one event per action plus the
+        observation at quiescence under '_post'"""
+        s = self.sched
+        for c in self.conns.values():
+            del c.msgs[:]
+        for u in self.up.values():
+            del u.received[:]
+        t0 = s.now
+        replies = {}
+
+        def actor(i, a):
+            action = {'act': 'activate', 'deact': 'deactivate'}[a['act']]
+            conn = self.conns[a['c']]
+            r = self.reply(action, None, lambda: self.router.handle_request(conn, (action, None, None)))
+            replies[i] = r[0] if not r[0].startswith('error') else r[0] + ':' + str(r[2][0]) + ':' + str(r[2][1])[:80]
+        for i, a in enumerate(subs):
+            if a['act'] == 'upd':
+                self.up[a['n']].set_value(a['m'], a['p'], a.get('v'), a.get('e') or None)
+            else:
+                s.spawn('actor', actor, i, a)
+        self.settle()
+        post = {'dt': int(round((s.now - t0) * 10)),
+                'out': {c.name: [self.msg(m) for m in c.msgs] for c in self.conns.values()}, 'routed': []}
+        post.update(self.observe())
+        post['excs'] = sorted(repr(t.exc)[:100] for t in s.threads.values() if t.exc is not None)
+        group = to_event(self, {'act': 'group'}, dict(post, rep=None))
+        group['subs'] = []
+        for i, a in enumerate(subs):
+            e = to_event(self, a, dict(post, rep=replies.get(i)))
+            group['subs'].append({k: e[k] for k in ('ev', 'n', 'm', 'p', 'c', 'en', 'rep') if k in e})
+        return group
 
     def owner_up(self, m):
         ups = [self.up[n] for n in self.order if m in self.up[n].modules]
@@ -513,7 +566,7 @@ class World:
                 'fw': str(data.get('firmware', ''))[:12]}
 
 
-REPAIRS = ('modules-attr', 'deactivate-noreply', 'update-not-exported', 'shutdown-flag', 'snapshot-to-all',
+REPAIRS = ('stale-snapshot', 'modules-attr', 'deactivate-noreply', 'update-not-exported', 'shutdown-flag', 'snapshot-to-all',
            'startdown-nodes', 'describe-mutates', 'collision-owner', 'unknown-module')
 
 
@@ -524,25 +577,50 @@ def repaired(fr, repairs):
     import threading
     from frappy.errors import NoSuchModuleError
 
-    class C(fr.SecopClient):
+    Base = fr.SecopClient
+
+    class C(Base):
+        def updateValue(self, module, param, value, timestamp, readerror):
+            if 'collision-owner' in repairs and self.dispatcher.node_by_module.get(module, self) is not self:
+                return None      # module name owned by another node
+            if 'stale-snapshot' in repairs:
+                with self.dispatcher.snaplock:      # cache write + broadcast are one step for handle_activate
+                    return Base.updateValue(self, module, param, value, timestamp, readerror)
+            return Base.updateValue(self, module, param, value, timestamp, readerror)
+
+        def nodeStateChange(self, online, state):
+            if 'stale-snapshot' in repairs:
+                with self.dispatcher.snaplock:
+                    return Base.nodeStateChange(self, online, state)
+            return Base.nodeStateChange(self, online, state)
+
         def updateEvent(self, module, parameter, value, timestamp, readerror):
             if 'collision-owner' in repairs and self.dispatcher.node_by_module.get(module, self) is not self:
                 return None      # module name owned by another node
             if 'update-not-exported' in repairs and not readerror:
                 value = self.modules[module]['parameters'][parameter]['datatype'].export_value(value)
-            return fr.SecopClient.updateEvent(self, module, parameter, value, timestamp, readerror)
+            return Base.updateEvent(self, module, parameter, value, timestamp, readerror)
 
         def descriptiveDataChange(self, module, data):
             ev = self._shutdown
             try:
-                return fr.SecopClient.descriptiveDataChange(self, module, data)
+                return Base.descriptiveDataChange(self, module, data)
             finally:
                 if 'shutdown-flag' in repairs and self._shutdown is True:
                     self._shutdown = ev
                     ev.set()
 
     class R(fr.Router):
+        snaplock = None
+
+        def handle_request(self, conn, msg):
+            if 'stale-snapshot' in repairs and msg[0] == 'activate':
+                with self.snaplock:
+                    return fr.Router.handle_request(self, conn, msg)
+            return fr.Router.handle_request(self, conn, msg)
+
         def __init__(self, *args):
+            self.snaplock = ds.DRLock()
             saved = fr.SecopClient
             fr.SecopClient = C
             try:
@@ -556,8 +634,18 @@ def repaired(fr, repairs):
                 for node in self.nodes:
                     for module in node.modules:
                         self.node_by_module.setdefault(module, node)
+                for node in self.nodes:
+                    for key in list(node.cache):
+                        if self.node_by_module.get(key[0]) is not node:
+                            del node.cache[key]
 
         def handle_activate(self, conn, specifier, data):
+            if 'stale-snapshot' in repairs:
+                with self.snaplock:
+                    return self.handle_activate1(conn, specifier, data)
+            return self.handle_activate1(conn, specifier, data)
+
+        def handle_activate1(self, conn, specifier, data):
             if 'snapshot-to-all' not in repairs:
                 return fr.Router.handle_activate(self, conn, specifier, data)
             me = threading.get_ident()
@@ -646,7 +734,6 @@ LAYOUTS = {
     'Coll': {'nodes': {'A': ['ma', 'mx'], 'B': ['mx']}, 'conns': ['c1', 'c2']},
     'ABdown': {'nodes': {'A': ['ma'], 'B': ['mb']}, 'conns': ['c1', 'c2'], 'startdown': ['B']},
 }
-HIDDEN = 'not reachable'
 ORDER = ('excs', 'init', 'misrouted', 'rep', 'routed', 'desc', 'restart', 'st', 'active', 'cache', 'out', 'dt')
 
 
@@ -678,16 +765,16 @@ def compare(w, a, exp, obs):
         diff['excs'] = obs['excs'][0][:60]
     if exp['restart']:
         # the router asked to be restarted: what it does until then is not specified
-        if obs['restarts'] != 1:
-            diff['restart'] = 'requested %dx, expected once' % obs['restarts']
+        if obs['restarts'] < 1:
+            diff['restart'] = 'not requested'
         return diff
     if exp['st'] != obs['st']:
         diff['st'] = ','.join('%s:%s/%s' % (n, exp['st'][n], obs['st'].get(n)) for n in sorted(exp['st'])
                               if exp['st'][n] != obs['st'].get(n))
     if sorted(exp['active']) != obs['active']:
         diff['active'] = 'expected %s' % sorted(exp['active'])
-    if exp['restart'] != (obs['restarts'] > 0) or obs['restarts'] > 1:
-        diff['restart'] = 'requested %dx, expected %s' % (obs['restarts'], exp['restart'])
+    if obs['restarts']:
+        diff['restart'] = 'requested without need'
     bad = [c for c in exp['cache'] if c['vis'] and obs['cache'].get('%s.%s:%s' % (c['n'], c['m'], c['p'])) != c['en']]
     if bad or obs.get('cache_extra'):
         c = bad[0] if bad else None
@@ -709,29 +796,30 @@ def compare(w, a, exp, obs):
         if obs['rep'] != exp['rep']['a']:
             diff['rep'] = str(obs['rep'])[:80]
     elif act == 'desc':
-        d, e = obs['desc'], exp['desc']
+        d = obs['desc']
         if d['err']:
             diff['rep'] = d['err']
         else:
-            mods = {m: o for m, o in e['mods']}
-            got = {m: x['owner'] for m, x in d['mods'].items()}
             how = []
-            if d['eq'] != 'eq_' + e['eq']:
-                how.append('equipment_id')
-            if d['parts'] != e['parts']:
-                how.append('node descriptions %s' % d['parts'])
-            if got != mods:
-                how.append('modules %s' % sorted(got.items()))
-            elif any(x['ver'] != 0 or x['acc'] != sorted(list(PARAMS) + ['go']) for x in d['mods'].values()):
-                how.append('module description')
+            for e in exp['desc']:
+                how = []
+                if d['eq'] != 'eq_' + e['eq']:
+                    how.append('equipment_id')
+                if d['parts'] != e['parts']:
+                    how.append('node descriptions %s' % d['parts'])
+                if {m: x['owner'] for m, x in d['mods'].items()} != {m: o for m, o in e['mods']}:
+                    how.append('modules %s' % sorted((m, x['owner']) for m, x in d['mods'].items()))
+                elif any(x['ver'] != 0 or x['acc'] != sorted(list(PARAMS) + ['go']) for x in d['mods'].values()):
+                    how.append('module description')
+                if not how:
+                    break
             if how:
                 diff['desc'] = '; '.join(how)
     routed = sorted([r['n'], r['k'], '%s:%s' % (r['m'], r['p']), r['arg']] for r in exp['routed'])
     if routed != obs['routed']:
         wrong = sorted({r[0] for r in obs['routed']} - {r[0] for r in routed})
         if wrong:
-            diff['misrouted'] = 'request sent to %s, owner is %s' % (wrong, sorted({r[0] for r in routed}) or (
-                HIDDEN if act == 'req' else 'nobody'))
+            diff['misrouted'] = 'sent to another node than the owner of the module'
         else:
             diff['routed'] = 'sent %s expected %s' % ([r[1:] for r in obs['routed']], [r[1:] for r in routed])
     # update streams, per connection and per parameter name
@@ -752,9 +840,13 @@ def compare(w, a, exp, obs):
         if e != g and not (k in opt and not g):
             who = 'requester' if k[0] == a.get('c') else 'other'
             if len(g) == len(e):
-                how = 'wrong entry %s for %s' % (_en([x for x, y in zip(g, e) if x != y][0]), k[2])
+                how = 'wrong entry %s' % _en([x for x, y in zip(g, e) if x != y][0])
             else:
-                how = '%s %d instead of %d' % (k[2] if act != 'act' else who, len(g), len(e))
+                how = '%s updates than expected' % ('more' if len(g) > len(e) else 'fewer')
+                if act == 'act':
+                    how = 'the %s connection gets %s' % ({'requester': 'activating', 'other': 'other'}[who], how)
+            if 'out' not in diff:
+                diff['param'] = k[2]
             diff.setdefault('out', how)
     return diff
 
@@ -791,23 +883,32 @@ def signature(beh, i, diff):
     clause = [f for f in ORDER if f in diff][0]
     act = st['act'] + (':' + st['k'] if st['act'] == 'req' else '')
     sig = {'module': 'Router', 'action': act, 'clause': clause, 'how': diff[clause]}
+    if clause == 'out' and 'param' in diff:
+        sig['param'] = diff['param']
     if clause == 'restart':
         sig['after_describe'] = any(s['act'] == 'desc' for s in beh[:i])
     return sig
 
 
-def replay_all(chk, jobs, label):
-    """jobs: list of (layout, behaviour).  Pristine pass first; the behaviours that deviate through an OPEN known
-    finding are replayed again with the proposed patch of that finding applied (wrappers), until nothing new shows.
-    Behaviours with identical inputs are alternatives of a nondeterministic step: one of them must match."""
+def replay_all(chk, jobs, label, partial=(), pristine_every=1):
+    """jobs: list of (layout, behaviour).  Behaviours with identical inputs are alternatives of a nondeterministic
+    step: one of them must match.  Round 0 replays (a sample of) the input sequences on the unchanged code; what
+    deviates through an OPEN known finding is replayed again with the proposed patch of that finding applied
+    (wrappers around the real methods), together with everything not replayed yet, until nothing new shows."""
+    import zlib
     groups = {}
     for j, (layout, beh) in enumerate(jobs):
         groups.setdefault((layout, json.dumps(inputs(beh), sort_keys=True)), []).append(j)
-    todo = list(range(len(jobs)))
+    first = set()
+    for key, members in groups.items():
+        if zlib.crc32(key[1].encode()) % pristine_every == chk.seed % pristine_every:
+            first |= set(members)
+    todo = sorted(first)
     applied = set()
     passed = set()
     rounds = 0
-    while todo and rounds < 6:
+    pending = set(range(len(jobs))) - first
+    while todo and rounds < 8:
         rounds += 1
         rep = tuple(sorted(applied))
         res = pool_map(replay_one, [(jobs[j][0], jobs[j][1], rep) for j in todo])
@@ -819,7 +920,7 @@ def replay_all(chk, jobs, label):
             else:
                 failed[j] = r
         new = set()
-        again = []
+        again = set()
         for key, members in groups.items():
             if any(j in passed for j in members) or not any(j in failed for j in members):
                 continue
@@ -827,62 +928,325 @@ def replay_all(chk, jobs, label):
             j = max((j for j in members if j in failed), key=lambda x: failed[x][0])
             i, diff, obs = failed[j]
             layout, beh = jobs[j]
+            if j in partial and 0 <= i < len(beh) and beh[i]['exp']['loose']:
+                # a simulated behaviour took another alternative of a nondeterministic step than the implementation
+                chk.notes['inconclusive_simulated'] = chk.notes.get('inconclusive_simulated', 0) + 1
+                continue
             sig = signature(beh, i, diff)
             sig['layout'] = layout
             e = chk.known.match(chk.prop, sig)
             detail = {'layout': layout, 'behaviour': beh[:i + 1], 'inputs': inputs(beh), 'step': i, 'diff': diff,
                       'observed': obs, 'expected': beh[i]['exp'] if 0 <= i < len(beh) else None,
                       'repairs': list(rep)}
-            if e and e['id'][4:] in applied:
+            if e and e.get('repair', e['id'][4:]) in applied:
                 sig['how'] = 'PATCH OF %s DOES NOT HELP: %s' % (e['id'], sig['how'])
                 e = None
             chk.violation(sig, detail)
-            if e:
-                if e['id'][4:] in REPAIRS:
-                    new.add(e['id'][4:])
-                    again += [m for m in members if m in failed]
-        if not new:
-            break
+            if e and e.get('repair', e['id'][4:]) in REPAIRS:
+                new.add(e.get('repair', e['id'][4:]))
+                again |= {m for m in members if m in failed}
         applied |= new
-        todo = sorted(set(again))
+        todo = sorted(again | pending)
+        pending = set()
+        if not new and not todo:
+            break
     chk.notes.setdefault('replay', {})[label] = {'behaviours': len(jobs), 'input_sequences': len(groups),
                                                  'rounds': rounds, 'patched_findings': sorted(applied)}
     return applied
 
 
-GEN = {'quick': [('AB', 'Gen_Router_quick.cfg', {}), ('A', 'Gen_Router_A_quick.cfg', {}),
-                 ('Coll', 'Gen_Router_coll_quick.cfg', {}), ('ABdown', 'Gen_Router_down_quick.cfg', {}),
-                 ('AB', 'Gen_Router_sim.cfg', {'simulate': 'num=150', 'depth': 9})],
-       'thorough': [('AB', 'Gen_Router_thorough.cfg', {}), ('A', 'Gen_Router_A_thorough.cfg', {}),
-                    ('Coll', 'Gen_Router_coll_thorough.cfg', {}), ('ABdown', 'Gen_Router_down_thorough.cfg', {}),
-                    ('AB', 'Gen_Router_sim.cfg', {'simulate': 'num=3000', 'depth': 12})]}
+# ------------------------------------------------------------------ code -> spec: random histories
+
+def to_event(w, a, obs):
+    """world action + observation -> event of Trace_Router"""
+    owner = {}
+    for n in w.order:
+        for m in w.up[n].modules:
+            owner.setdefault(m, n)
+    e = {'ev': a['act']}
+    for k in ('n', 'm', 'p', 'c', 'd', 'ver', 'k', 'arg'):
+        if k in a:
+            e[k] = a[k]
+    if a['act'] == 'upd':
+        e['en'] = {'k': 'v', 'v': a['v'], 'e': ''} if a.get('e') is None else {'k': 'e', 'v': 0, 'e': a['e']}
+    if a['act'] == 'req':
+        e.update(ok='re' not in a, x=a.get('rv', 0), ec=a.get('re', 'hw'))
+        r = obs['rep']
+        e['rep'] = {'a': 'error', 'v': 0, 'e': r['e'] + ('' if r['a'] == 'error_' + a['k'] else '!' + r['a'])} if r['e'] \
+            else {'a': r['a'] + ('' if r['spec'] == '%s:%s' % (a['m'], a['p']) else '!' + r['spec']), 'v': r['v'], 'e': ''}
+    elif a['act'] in ('act', 'deact'):
+        e['rep'] = {'a': str(obs['rep'])[:90], 'v': 0, 'e': ''}
+    elif a['act'] == 'desc':
+        d = obs['desc']
+        e['rep'] = {'a': 'describing' if not d['err'] else d['err'], 'v': 0, 'e': ''}
+        good = all(x['ver'] == 0 and x['acc'] == sorted(list(PARAMS) + ['go']) for x in d['mods'].values())
+        e['desc'] = {'eq': d['eq'][3:] if d['eq'].startswith('eq_') else '?' + d['eq'], 'parts': d['parts'],
+                     'mods': sorted([m, x['owner'] if good else '?'] for m, x in d['mods'].items())}
+    else:
+        e['rep'] = {'a': 'none', 'v': 0, 'e': ''}
+    e['routed'] = [{'n': r[0], 'k': r[1], 'm': r[2].partition(':')[0], 'p': r[2].partition(':')[2], 'arg': r[3]}
+                   for r in obs['routed']]
+    e['st'] = obs['st']
+    e['active'] = obs['active']
+    e['restarts'] = obs['restarts']
+    e['excs'] = obs['excs']
+    e['dt'] = obs['dt']
+    e['cache'] = []
+    for key, en in obs['cache'].items():
+        n, _, mp = key.partition('.')
+        m, _, p = mp.partition(':')
+        if en['k'] != 'u':
+            e['cache'].append({'n': n, 'm': m, 'p': p, 'en': en})
+    for x in obs.get('cache_extra', ()):
+        e['cache'].append({'n': '?', 'm': x, 'p': '?', 'en': {'k': 'u', 'v': 0, 'e': ''}})
+    out = {}
+    for c, msgs in obs['out'].items():
+        for m in msgs:
+            if m['a'] != 'update':
+                out.setdefault((c, '?', m['a'], '?'), []).append(m['en'])
+            else:
+                out.setdefault((c, owner.get(m['m'], '?'), m['m'], m['p']), []).append(m['en'])
+    e['out'] = [{'c': k[0], 'n': k[1], 'm': k[2], 'p': k[3], 'seq': v} for k, v in sorted(out.items())]
+    return e
+
+
+TRACE_PARAMS = ['value', 'sp', 'mode']
+
+
+def random_history(args):
+    """seeded random history on the real objects: list of events; steps that ran concurrently form one 'group'
+    event (the order in which they took effect is not observable: TLC looks for one)"""
+    seed, layout, nsteps, conc, repairs = args
+    rnd = random.Random(seed)
+    lay = LAYOUTS[layout]
+    trace = []
+
+    def driver(w):
+        if w.router is None:
+            return 'init: %s' % w.init_error
+        mods = [(n, m) for n in w.order for m in w.up[n].modules]
+        for _ in range(nsteps):
+            st = {n: w.node_state(n) for n in w.order}
+            opn = {n: w.up[n].open for n in w.order}
+            r = rnd.random()
+            n, m = rnd.choice(mods)
+            if conc and r < conc:
+                subs = joint_actions(rnd, w, st, mods)
+                if subs:
+                    trace.append(w.step_joint(subs))
+                    if trace[-1]['restarts'] or trace[-1]['excs']:
+                        break
+                continue
+            r = rnd.random()
+            if r < 0.32:
+                a = {'act': 'upd', 'n': n, 'm': m, 'p': rnd.choice(TRACE_PARAMS)}
+                if rnd.random() < 0.15:
+                    a['e'] = rnd.choice(['hw', 'range'])
+                else:
+                    a['v'] = rnd.randrange(6)
+            elif r < 0.55:
+                kind = rnd.choice(['read', 'read', 'change', 'do'])
+                if rnd.random() < 0.1:
+                    m = 'zz'
+                elif st[n] != 'up' and opn[n]:
+                    continue          # reachable again but not yet reconnected: outcome not modelled
+                a = {'act': 'req', 'c': rnd.choice(lay['conns']), 'k': kind, 'm': m,
+                     'p': 'go' if kind == 'do' else rnd.choice(TRACE_PARAMS), 'arg': 0 if kind == 'read' else rnd.randrange(6)}
+                if rnd.random() < 0.3:
+                    a['re'] = rnd.choice(['hw', 'range'])
+                else:
+                    a['rv'] = rnd.randrange(6)
+            elif r < 0.65:
+                a = {'act': 'act', 'c': rnd.choice(lay['conns'])}
+            elif r < 0.70:
+                a = {'act': 'deact', 'c': rnd.choice(lay['conns'])}
+            elif r < 0.73:
+                a = {'act': 'desc', 'c': rnd.choice(lay['conns'])}
+            elif r < 0.81:
+                if not opn[n]:
+                    continue
+                a = {'act': 'lose', 'n': n}
+            elif r < 0.89:
+                if opn[n]:
+                    continue
+                a = {'act': 'back', 'n': n, 'ver': 1 if rnd.random() < 0.15 or w.up[n].version else 0}
+            else:
+                d = rnd.choice([2, 2, 12])
+                if d == 2 and any(st[x] == 'off' and opn[x] for x in w.order):
+                    d = 12
+                a = {'act': 'wait', 'd': d}
+            obs = w.step(a)
+            trace.append(to_event(w, a, obs))
+            if obs['restarts'] or obs['excs']:
+                break
+        return None
+    w, res = run_world(lay, driver, strategy=ds.RandomStrategy(seed * 31 + 7, stay=0.75), repairs=repairs)
+    if 'stuck' in w.box or res:
+        trace.append({'ev': 'stuck', 'excs': [res or json.dumps(w.box['stuck'])[:200]]})
+    return trace
+
+
+def joint_actions(rnd, w, st, mods):
+    """an activate / deactivate racing with one or two upstream updates"""
+    up = [(n, m) for n, m in mods if st[n] == 'up']
+    if not up:
+        return None
+    subs = [{'act': rnd.choice(['act', 'act', 'act', 'deact']), 'c': rnd.choice(sorted(w.conns))}]
+    keys = set()
+    for _ in range(rnd.choice([1, 1, 2])):
+        n, m = rnd.choice(up)
+        p = rnd.choice(TRACE_PARAMS)
+        if (n, m, p) in keys:
+            continue        # (two updates of one parameter have an order of their own)
+        keys.add((n, m, p))
+        subs.append({'act': 'upd', 'n': n, 'm': m, 'p': p, 'v': rnd.randrange(6)})
+    rnd.shuffle(subs)
+    return subs
+
+
+GEN = {'quick': [('AB', 'Gen_Router_quick.cfg', {}, 2), ('A', 'Gen_Router_A_quick.cfg', {}, 1),
+                 ('Coll', 'Gen_Router_coll_quick.cfg', {}, 1), ('ABdown', 'Gen_Router_down_quick.cfg', {}, 1),
+                 ('AB', 'Gen_Router_sim.cfg', {'simulate': 'num=150', 'depth': 9}, 1)],
+       'thorough': [('AB', 'Gen_Router_thorough.cfg', {}, 1), ('A', 'Gen_Router_A_thorough.cfg', {}, 1),
+                    ('Coll', 'Gen_Router_coll_thorough.cfg', {}, 1), ('ABdown', 'Gen_Router_down_thorough.cfg', {}, 1),
+                    ('AB', 'Gen_Router_sim.cfg', {'simulate': 'num=3000', 'depth': 12}, 1)]}
+TRACE_CFG = {'AB': 'Trace_Router.cfg', 'A': 'Trace_Router_A.cfg'}
+
+
+def trace_signature(trace, l, clause):
+    ev = trace[l - 1] if 0 < l <= len(trace) else {}
+    kind = ev.get('ev', '?')
+    sig = {'module': 'Router', 'clause': clause}
+    if kind == 'group':
+        kind = 'group:' + '+'.join(sorted(x['ev'] for x in ev['subs']))
+        odd = [x['rep']['a'] for x in ev['subs'] if x['rep']['a'] not in ('none', 'active', 'inactive')]
+        if odd:
+            sig['how'] = __import__('re').sub(r'[^A-Za-z_: (]', '', odd[0])[:80]
+        elif clause == 'update streams':
+            # (description only) does some connection end with an entry that is not the cached one?
+            cache = {(c['m'], c['p']): c['en'] for c in ev['cache']}
+            stale = any(o['c'] in ev['active'] and o['seq'][-1] != cache.get((o['m'], o['p'])) for o in ev['out'])
+            sig['how'] = 'last update sent is not the cached entry' if stale else 'other'
+    elif kind == 'req':
+        kind += ':' + ev.get('k', '?')
+    sig['trace_event'] = kind
+    if clause == 'thread died with an exception':
+        sig['how'] = (ev.get('excs') or ['?'])[0][:60]
+    if clause == 'restart request':
+        sig['after_describe'] = any(e['ev'] == 'desc' for e in trace[:l])
+    return sig
+
+
+def random_phase(chk, applied, layout, seeds, nsteps, conc):
+    """random histories of the real objects, validated by TLC; deviations through open findings that have a patch
+    are run again (same seeds) with the patch applied"""
+    applied = set(applied)
+    todo = list(seeds)
+    for rnd_ in range(4):
+        rep = tuple(sorted(applied))
+        traces = pool_map(random_history, [(sd, layout, nsteps, conc, rep) for sd in todo])
+        # the last trace of the batch is a copy of the first one with one observed value changed: TLC must reject it
+        bad = json.loads(json.dumps(traces[0]))
+        spot = [e for e in bad if e.get('cache')]
+        if spot:
+            en = spot[-1]['cache'][0]['en']
+            en['v'] = (en['v'] + 1) % 6 if en['k'] == 'v' else 0
+            en['k'], en['e'] = 'v', ''
+        verdicts, st, tr = validate_traces('Trace_Router', traces + ([bad] if spot else []), TRACE_CFG[layout], timeout=600)
+        chk.states += st
+        chk.transitions += tr
+        if spot and verdicts.pop(len(traces)) is None:
+            from ..core import MachineryError
+            raise MachineryError('Trace_Router accepted a corrupted trace')
+        new = set()
+        again = []
+        for i, v in verdicts.items():
+            chk.impl_traces += 1
+            groups = sum(1 for e in traces[i] if e['ev'] == 'group')
+            chk.case(('trace', layout, todo[i], rep), True)
+            if v is None:
+                continue
+            sig = trace_signature(traces[i], v[0], v[1])
+            sig['layout'] = layout
+            e = chk.known.match(chk.prop, sig)
+            if e and e.get('repair', e['id'][4:]) in applied:
+                sig['clause'] = 'PATCH OF %s DOES NOT HELP: %s' % (e['id'], sig['clause'])
+                e = None
+            chk.violation(sig, {'random': [todo[i], layout, nsteps, conc], 'repairs': list(rep), 'failed_at': v[0],
+                                'clause': v[1], 'trace': traces[i][:v[0]]})
+            if e and e.get('repair', e['id'][4:]) in REPAIRS:
+                new.add(e.get('repair', e['id'][4:]))
+                again.append(todo[i])
+        if traces and rnd_ == 0:
+            chk.sample({'random_history_prefix': [{k: v for k, v in e.items() if k not in ('cache', 'st')}
+                                                  for e in traces[0][:3]]})
+        if not new:
+            break
+        applied |= new
+        todo = again
+    return applied
 
 
 def run(chk):
     from ..core import run_parallel
     quick = chk.tier == 'quick'
-    chk.rule = 'x'
-    for m in ('Router', 'Gen_Router'):
+    chk.rule = ('spec->code: one behaviour per transition of the abstract state graph of Gen_Router to the depth bound '
+                '(layouts: two nodes, one node passed through, module name collision, node away at start) plus '
+                'simulated deep behaviours, replayed on the real Router/SecopClient objects with comparison of the '
+                'projected state after every step; code->spec: seeded random histories (3 parameters, 6 values, '
+                'concurrent activate/deactivate/update groups under random thread schedules) validated by '
+                'Trace_Router. Distinct = distinct input sequence / (seed, patch set); non-trivial = more than one step')
+    chk.assumptions += [
+        'where the unchanged router deviates through an OPEN known finding, the same inputs are run again with the '
+        'proposed patch of that finding applied as a wrapper around the real method (harness/props/x01.py repaired()), '
+        'so that the code behind the finding is still compared with the specification',
+        'steps run one after the other to quiescence; concurrency only inside the group events of the random histories',
+        'requests to a node that is reachable again but not yet reconnected, and upstream nodes that are connected '
+        'but mute, are outside the model']
+    for m in ('Router', 'Gen_Router', 'Trace_Router'):
         sany(m)
     thunks = [lambda: model_check('Router', 'MC_Router_quick.cfg' if quick else 'MC_Router_thorough.cfg', timeout=900)]
-    for layout, cfg, kw in GEN[chk.tier]:
+    if not quick:
+        thunks.append(lambda: model_check('Router', 'MC_Router_coll.cfg', timeout=900))
+    nmc = len(thunks)
+    for layout, cfg, kw, _ in GEN[chk.tier]:
         if 'simulate' in kw:
             kw = dict(kw, seed=chk.seed + 1)
         thunks.append(lambda cfg=cfg, kw=kw: emit_behaviours('Gen_Router', cfg, maximal_only=False, timeout=600, **kw))
     results = run_parallel(thunks, width=3)
-    chk.add_tlc(results[0])
-    jobs = []
-    for (layout, cfg, kw), (r, behs) in zip(GEN[chk.tier], results[1:]):
+    for r in results[:nmc]:
         chk.add_tlc(r)
+    import zlib
+    jobs = []
+    partial = set()
+    for (layout, cfg, kw, every), (r, behs) in zip(GEN[chk.tier], results[nmc:]):
+        chk.add_tlc(r)
+        if every > 1:      # quick tier: a seed-dependent part of the input sequences (all alternatives of each)
+            behs = [b for b in behs
+                    if zlib.crc32(json.dumps(inputs(b), sort_keys=True).encode()) % every == chk.seed % every]
+        if kw:
+            partial |= set(range(len(jobs), len(jobs) + len(behs)))
         jobs += [(layout, b) for b in behs]
         chk.notes.setdefault('generated', {})[cfg + (' (simulated)' if kw else '')] = len(behs)
     for layout, beh in jobs:
         chk.case(json.dumps([layout, inputs(beh)], sort_keys=True), len(beh) > 1)
-    replay_all(chk, jobs, 'tlc behaviours')
+    applied = replay_all(chk, jobs, 'tlc behaviours', partial, pristine_every=4 if quick else 1)
+    for layout, beh in jobs[len(jobs) // 2:len(jobs) // 2 + 1]:
+        chk.sample({'layout': layout, 'behaviour': beh[-1:]})
+    n = 60 if quick else 1500
+    applied = random_phase(chk, applied, 'AB', [chk.seed * 100003 + i for i in range(n)], 25 if quick else 40, 0.25)
+    random_phase(chk, applied, 'A', [chk.seed * 100003 + 50000 + i for i in range(n // 3)], 25 if quick else 40, 0.25)
+    chk.exhaustive = False
 
 
 def replay(chk, rep):
     d = rep['detail']
+    if 'random' in d:
+        seed, layout, nsteps, conc = d['random']
+        for e in random_history((seed, layout, nsteps, conc, tuple(d['repairs'])))[:d['failed_at']]:
+            print(json.dumps(e, sort_keys=True))
+        print('rejected at event', d['failed_at'], ':', d['clause'])
+        return 0
     beh = d['behaviour']
 
     def driver(w):
